@@ -33,6 +33,22 @@ SPECIALS = ['$', '#', '{', '}', '&', '_', '%', '^', '\\', '\\\\', '\\{', '}{', '
 WORDS = ['foo', 'bar', 'a', 'b c', 'é', '中', 'x.y', 'path/to', 'http://u.v/w']
 
 
+def _template_payloads():
+    """format fields named as in the renderers' own source, positional / %-style fields, back-references: dangerous only when
+    text is pasted into a template that is expanded again (see harness/props/c08.py)"""
+    import re as _re
+    names = set()
+    for f in list((common.REPO / 'mistletoe').glob('*.py')) + list((common.REPO / 'mistletoe' / 'contrib').glob('*.py')):
+        try:
+            names.update(_re.findall(r'\{(\w{1,12})\}', f.read_text()))
+        except OSError:
+            pass
+    return ['{0}', '{{', '}}', '%s', '%(inner)s', '\\1', '\\g<0>', '{0.__class__}'] + ['{%s}' % n for n in sorted(names)]
+
+
+SPECIALS += _template_payloads()
+
+
 def special(rng, k=3):
     return ''.join(rng.choice(SPECIALS + WORDS) for _ in range(rng.randint(1, k)))
 
